@@ -7,8 +7,7 @@ for name in "$@"; do
   git -C "$W" apply /verif/seeded/$name/patch.diff || { echo "$name: patch does not apply"; git -C /repo worktree remove --force "$W"; continue; }
   mkdir -p .work/trv-$name
   broken=""
-  for mod in translate translate2 translate3 translate4 translate5; do
-    [ -f harness/$mod.py ] || continue
+  for mod in $(ls harness/translate*.py | xargs -n1 basename | sed 's/.py//'); do
     for p in $(LYMPH_REPO=$W PYTHONPATH=/verif /venv/bin/python -c "import harness.$mod as m; print(' '.join(m.PIECES))" 2>/dev/null); do
       f=.work/trv-$name/Gen_$p.v
       if LYMPH_REPO=$W PYTHONPATH=/verif /venv/bin/python -c "import harness.$mod as m; print(m.generate('$p'))" > $f 2>/dev/null; then
